@@ -152,6 +152,9 @@ extern "C" void w_c11_stmt(int which, int e1_empty, int e2_empty, int e3_empty, 
         (B).frame.syms[0] = symbol_t(0); (B).frame.syms[1] = symbol_t(1); (B).frame.syms[2] = symbol_t(2); \
     } while (0)
         vars[0].init = expression_t(4); vars[1].init = expression_t(5); vars[2].init = expression_t(6); /* initialisers: nodes 4..6 */
+        /* the local symbols have arbitrary types (scalars, arrays, records, ...); the ones that carry a variable_t are the
+           block's variables, whatever their type */
+        verif_syms[0].type = type_t::verif_any_type(); verif_syms[1].type = type_t::verif_any_type(); verif_syms[2].type = type_t::verif_any_type();
         verif_syms[0].data = (has_data & 1) ? (void*)&vars[0] : (void*)0;
         verif_syms[1].data = (has_data & 2) ? (void*)&vars[1] : (void*)0;
         verif_syms[2].data = (has_data & 4) ? (void*)&vars[2] : (void*)0;
